@@ -1351,6 +1351,7 @@ class ConfigCommand(Command, Expr):
 
     params: typing.List[Param] = ast.field(factory=list)
     schema: typing.Optional[s_schema.Schema] = None
+    dml_exprs: typing.List[qlast.Base] = ast.field(factory=list)
 
 
 class ConfigSet(ConfigCommand):
